@@ -334,6 +334,23 @@ fn gen(ctx: &GenCtx, i: u64) -> Option<Run> {
     for (k, m) in outs.iter().enumerate() {
         rb.push(Op::Deliver { msg: *m, to: v, now_ns: Ns(deliver_at), ticks: vec![], twin: vlayer != Layer::Core && k % twin_every == 0, control: None, key: None });
     }
+    // the splices are also shown to the verifier that matches the OTHER token (its footer, its assertion):
+    // a part of one authentic token never validates inside another
+    {
+        let mut so = plain_spec(&other, vlayer);
+        if vlayer != Layer::Core {
+            so.validators = validators_for_data();
+            so.hash_seed = r.next();
+        }
+        let vo = rb.verifier(so);
+        for part in [SplicePart::Nonce, SplicePart::Body, SplicePart::Tail, SplicePart::Footer] {
+            let a = rb.fault(t.msg, FaultKind::Splice { part: part.clone() }, Some(other.msg));
+            rb.deliver(a, vo, deliver_at);
+            let b = rb.fault(other.msg, FaultKind::Splice { part }, Some(t.msg));
+            rb.deliver(b, v, deliver_at);
+            rb.deliver(b, vo, deliver_at);
+        }
+    }
     // heal: the unaltered token still goes through (judged under C01/C02, a probe here)
     rb.deliver(t.msg, v, deliver_at);
     Some(rb.finish())
